@@ -141,7 +141,7 @@ class Ctx:
                     elif pr[0] == "AT":
                         at[pr[1]] = max(at.get(pr[1], 0), pr[2])
                     elif pr[0] == "OTHER":
-                        oc = self.extra.setdefault("clauses_of_other_properties_seen", {})
+                        oc = self.extra.setdefault("unjudged_clauses_of_other_properties", {})
                         oc[str(pr[2])] = oc.get(str(pr[2]), 0) + 1
             bad = {}
             for j in range(1, len(chunk) + 1):
